@@ -16,6 +16,13 @@ def model(cfg, spec="ChmuxData.tla", **kw):
     return d
 
 
+def life_leg(name, n, opts=None, require=None, nontrivial=None):
+    d = {"kind": "trace", "name": name, "workload": "life", "n": n, "opts": opts or {}, "require": require or {},
+         "nontrivial": nontrivial or []}
+    d.update(CT)
+    return d
+
+
 CHECKS = {
     "C01": {
         "rule": "seeded chmux scenarios (config pair, message sizes 0..3x max_data, send/try_send/send_chunks/port batches, "
@@ -58,6 +65,46 @@ CHECKS = {
             data_leg("data_cancel", (150, 3000), {"cancel": 1, "ports": 1}, require={r'"ev":"quiescent"': 100, r'"kind":"connect"': 10},
                      nontrivial=[r'"ev":"api_cancel"']),
             data_leg("data_ports", (80, 2000), {"cancel": 1, "ports": 1, "sends": 10}, nontrivial=[r'"kind":"connect"']),
+        ],
+    },
+    "C07": {
+        "rule": "seeded lifecycle scenarios: connects/accepts/rejects/dropped requests from both sides, max_ports 2..4, "
+                "data, close, sender/receiver/client/listener drops in random order, then everything dropped; "
+                "non-trivial = at least one port was opened and a handle dropped before the final teardown",
+        "assumptions": ["single-threaded schedules", "task count read from tokio RuntimeMetrics::num_alive_tasks"],
+        "legs": [
+            model("ChmuxLife_MC1S.cfg", spec="ChmuxLife.tla", min_states=100000, quick_only=True),
+            model("ChmuxLife_MC1.cfg", spec="ChmuxLife.tla", min_states=100000, thorough_only=True, timeout=1800),
+            life_leg("life", (120, 3000), {}, require={r'"ev":"alloc_check"': 100, r'"ev":"tasks"': 100, r'"what":"listener"': 50,
+                                                       r'"ev":"h_port_free"': 100},
+                     nontrivial=[r'"ev":"h_port_free"', r'"kind":"client_connect"']),
+            life_leg("life_calm", (40, 1000), {"calm": 1, "cancel": 0}, nontrivial=[r'"ev":"h_port_free"']),
+        ],
+    },
+    "C10": {
+        "rule": "same lifecycle scenarios; connect storms with connect_queue 1..3 and max_ports 2..4, wait flag random, "
+                "cancelled connect/accept futures; non-trivial = contains an accepted and a refused request",
+        "assumptions": ["refusal reasons are matched against the frames delivered to the requesting endpoint"],
+        "legs": [
+            model("ChmuxLife_MC1S.cfg", spec="ChmuxLife.tla", min_states=100000),
+            life_leg("life", (120, 3000), {"connects": 8}, require={r'"kind":"client_connect"': 300, r'"err":"rejected"': 10,
+                                                                      r'"err":"remote_ports"': 3, r'"kind":"req_accept"': 20,
+                                                                      r'"ev":"req_drop"': 10},
+                     nontrivial=[r'"ev":"api_done","local"', r'"err":"re']),
+            life_leg("life_storm", (60, 1500), {"connects": 12, "data": 0, "max_ports": 3}, nontrivial=[r'"err":"']),
+        ],
+    },
+    "C11": {
+        "rule": "lifecycle scenarios with data: close / drop of either half at random positions of short message streams; "
+                "non-trivial = a close or drop happened while messages were outstanding",
+        "assumptions": ["what a sender 'knows' is read from the H2 hook marking the dispatcher's processing of ReceiveClose/ReceiveFinish"],
+        "legs": [
+            model("ChmuxLife_MC1S.cfg", spec="ChmuxLife.tla", min_states=100000, quick_only=True),
+            model("ChmuxLife_MC1C.cfg", spec="ChmuxLife.tla", min_states=1000000, thorough_only=True, timeout=1800),
+            life_leg("life_data", (150, 3000), {"connects": 4}, require={r'"kind":"close"': 50, r'"err":"closed_graceful"': 10,
+                                                                          r'"err":"closed_dropped"': 10, r'"res":"none"': 30,
+                                                                          r'"kind":"closed"': 30},
+                     nontrivial=[r'"kind":"close"|"what":"receiver"', r'"kind":"send"']),
         ],
     },
 }
